@@ -717,7 +717,8 @@ SPECS['C06'] = dict(queries=c06, assumptions=COMMON_ASSUMPTIONS + [
     "quick tier: single-thread scenarios in which the queued path is forced by a shared handle held by the same thread (enqueue, pending flag, drain order, "
     "exclusivity of the drain, futures); interleavings of submitters, readers and drainers are decided only in the thorough tier: two threads, two rounds, with the vector / packaged_task / promise plumbing run atomically (noinline) and symbolic-size allocations replaced by 64-byte blocks (without both, cbmc's propositional reduction ran out of memory) - about 15 min per query",
     "virtual run_task / packaged_task invocation run atomically (indirect calls); std::try_to_lock never fails spuriously"],
-    outside=["every genuinely concurrent schedule (e.g. a drainer that cleared the pending flag but has not taken the lock yet while a direct-path submitter runs): seeded change C06-s1 needs one and is missed",
+    outside=["quick tier: every genuinely concurrent schedule (seeded change C06-s1 - a drainer that cleared the pending flag but has not taken the lock yet while a direct-path submitter runs - is caught only by the thorough query deferred_reader2_detach2_R2)",
+             "three or more threads, more than two rounds, two readers against two submitters",
              "exceptions thrown by queued functors"])
 
 
